@@ -84,13 +84,17 @@ def main():
         c.nontriv("probe N=%d" % n)
 
     # (3) real Vertex4
-    ms = [models.hubbard_atom(), models.dimer(), models.spinflip_atom()]
+    # inequivalent sites / a polarised site: G14 and G23 (and G13, G24) must be different functions, otherwise exchanging them is invisible
+    magn = models.model("atom(U=8,e=-4,h=4)", [["A", 1, 2]], [["Preset", 1, ["addCoulombS", "A", 8, -4]], ["Preset", 1, ["addMagnetization", "A", 4]]])
+    ms = [models.hubbard_atom(), models.dimer(), models.spinflip_atom(), models.dimer(t=4, U=0, eps=0, eps2=8), magn]
     if thorough:
         ms += [models.pair_atom(), models.mixed_sites(), models.hubbard_atom(U=0, eps=4)]
     scen = []
     for m in ms:
         quads = [[0, 1, 1, 0], [0, 0, 0, 0], [1, 0, 1, 0]] if not thorough else [[0, 1, 1, 0], [0, 0, 0, 0], [1, 0, 1, 0], [0, 1, 0, 1], [1, 1, 1, 1]]
         triples = [[a, b, d] for a in (-2, -1, 0, 1) for b in (-2, -1, 0, 1) for d in (-2, -1, 0, 1)]
+        if models.nmodes(m) >= 3:
+            quads = quads + [[0, 2, 2, 0], [0, 2, 0, 2], [2, 0, 0, 2]]
         m = dict(m)
         m["queries"] = [{"q": "vertex", "beta": "3.0", "quads": quads, "windows": [0, 1, 2, 3] if thorough else [0, 1, 2], "triples": triples}]
         scen.append(m)
